@@ -47,6 +47,8 @@ def oracle(c, ans):
         return cascade_oracle(c, ans)
     if c.get("mixed"):
         return mixed_oracle(c, ans)
+    if c.get("expect_ok"):
+        return [] if answer_kind(ans) in ("ok", "panic", "crash") else [f"a well-formed program of auto-sized pushes failed: {ans[:120]}"]
     v = c["v"]
     k = answer_kind(ans)
     if k in ("panic", "crash"):
@@ -135,6 +137,19 @@ def label_dependent_cases(run):
         if rng.random() < 0.3:
             body = [("defi", "m", [], body), ("macro", "m", [])]
         cases.append(mk_case(body, "constants-after-transiently-negative-push", mixed=consts + [final - K]))
+    # %push operands whose value is reached through negative intermediate results (expression macro body or
+    # argument), or is too large in the first layout rounds only: the final value decides, at its minimal width
+    neg = ("defe", "neg", [], G.climb([("num", 0), "-", ("num", 5)]))
+    add = ("defe", "add", ["a", "b"], G.climb([("var", "a"), "+", ("var", "b")]))
+    for v in (0, 5, 255, 256, 65535, 2 ** 64, 2 ** 256 - 1):
+        cases.append(mk_case([neg, ("push", G.climb([("num", v + 5), "+", ("macro", "neg", [])]))], "negative-intermediate", mixed=[v]))
+        cases.append(mk_case([add, ("push", ("macro", "add", [("num", v + 44), G.climb([("num", 0), "-", ("num", 44)])]))], "negative-intermediate", mixed=[v]))
+        if v <= 2 ** 64:      # value = end + v, with `end` below 40: must assemble
+            cases.append(mk_case([("defe", "below", ["x"], G.climb([("var", "x"), "-", ("num", 300)])),
+                                  ("defi", "m", [], [("push", G.climb([("macro", "below", [("lbl", "end")]), "+", ("num", 300 + v)]))]), ("macro", "m", []), ("label", "end"), ("op", "jumpdest", None)],
+                                 "negative-intermediate", expect_ok=True))
+    for k in (2, 17, 32):
+        cases.append(mk_case([("push", G.climb([("num", 2 ** 256 + k), "-", ("lbl", "end")])), ("label", "end"), ("op", "jumpdest", None)], "transiently-too-large", mixed=[2 ** 256 + k - 33]))
     return cases
 
 
